@@ -42,6 +42,26 @@ def basic_prog():
     return R.frame('6502', lines)
 
 
+def prog_exact(L):
+    """a 6502 program whose --listo 0 listing is exactly L bytes: lines of 64 listed bytes, last line adjusted"""
+    lines = []
+    n = 1
+    left = L
+    while left > 0:
+        take = 64 if left >= 64 + 7 or left == 64 else left
+        # listed line = 5 (number) + body + 1 (newline); body = REM token (3 chars) + filler
+        body_chars = take - 6
+        if body_chars < 3:
+            # cannot make such a short line: borrow from the previous line
+            prev_num, prev_body = lines.pop()
+            left += 6 + 3 + (len(prev_body) - 1)
+            continue
+        lines.append((n, b'\xf4' + b'x' * (body_chars - 3)))
+        n += 1
+        left -= take
+    return R.frame('6502', lines)
+
+
 DFS_CMDS = [['cat'], ['info', '#.*'], ['type', 'D.FILE00'], ['type', '--binary', 'D.FILE00'], ['list', 'D.FILE00'],
             ['dump', 'D.FILE00'], ['dump-sector', '0', '1', '2'], ['free'], ['space'], ['sector-map'], ['show-titles'],
             ['help'], ['help', 'info'], ['--help']]
@@ -261,7 +281,7 @@ def w_dest(case):
 
 
 def worker(case):
-    return {'stdout': w_stdout_limit, 'extract': w_extract_limit, 'dev': w_devices, 'dest': w_dest}[case['w']](case)
+    return {'stdout': w_stdout_limit, 'extract': w_extract_limit, 'dev': w_devices, 'dest': w_dest, 'exact': w_exact}[case['w']](case)
 
 
 def limits_for(n, tier):
@@ -291,6 +311,80 @@ def fam_stdout(tier):
                 yield {'w': 'stdout', 'tool': tool, 'cmd': cmd, 'limits': lim[i:i + 150]}
 
 
+def w_exact(case):
+    """bbcbasic_to_text listing of an exact length: stdout refuses writes from offset N"""
+    res = mkres()
+    try:
+        d = setup_dir()
+        L = case['L']
+        dfsrun.write(d, 'exact.bbc', prog_exact(L))
+        argv = [build.exe(BIN, 'bbcbasic_to_text'), '--listo', '0', 'exact.bbc']
+        ref = run.run_limited(argv, cwd=d, stdout_path=os.path.join(d, 'ref.out'))
+        full = open(os.path.join(d, 'ref.out'), 'rb').read()
+        if ref.exit != 0 or len(full) != L:
+            res['viol'].append(('HARNESS', 'listing length %d, wanted %d (%s)' % (len(full), L, ref.status())))
+            res['case'] = case
+            return res
+        for N in case['limits']:
+            p = os.path.join(d, 'lim.out')
+            r = run.run_limited(argv, cwd=d, stdout_path=p, fsize=N)
+            got = open(p, 'rb').read()
+            res['n'] += 1
+            sig = 'C11:basic:list-file:fsize:exact-length'
+            if N >= L:
+                if r.exit != 0 or got != full:
+                    res['viol'].append((sig + ':spurious', 'L=%d N=%d' % (L, N)))
+                else:
+                    bump(res, 'ok-unaffected')
+            elif r.sig or r.timeout:
+                res['viol'].append((sig + ':signal', 'L=%d N=%d %s' % (L, N, r.status())))
+            elif r.exit == 0:
+                bump(res, 'exit0-truncated')
+                res['viol'].append((sig + ':exit0-with-truncated-output', 'listing of exactly %d bytes, device refusing writes after %d: exit 0, %d bytes written' % (L, N, len(got))))
+            elif not r.err.strip():
+                res['viol'].append((sig + ':no-diagnostic', 'L=%d N=%d' % (L, N)))
+            else:
+                bump(res, 'ok-reported')
+            res['nt'].append(('exact', L, N))
+        # /dev/full and closed pipe
+        for dev in ('full', 'pipe'):
+            if dev == 'full':
+                f = os.open('/dev/full', os.O_WRONLY)
+                r = run.run_limited(argv, cwd=d, stdout_fd=f)
+                os.close(f)
+            else:
+                rfd, wfd = os.pipe()
+                os.close(rfd)
+                r = run.run_limited(argv, cwd=d, stdout_fd=wfd, sigpipe='i')
+                os.close(wfd)
+            res['n'] += 1
+            if r.exit == 0 and not r.sig:
+                res['viol'].append(('C11:basic:list-file:%s:exact-length:exit0' % dev, 'listing of exactly %d bytes' % L))
+            elif not r.sig and not r.err.strip():
+                res['viol'].append(('C11:basic:list-file:%s:exact-length:no-diagnostic' % dev, 'L=%d' % L))
+            else:
+                bump(res, 'dev-ok')
+        if res['viol']:
+            res['case'] = case
+    except Exception:
+        import traceback
+        res['viol'].append(('HARNESS', traceback.format_exc()))
+        res['case'] = case
+    return res
+
+
+def fam_exact(tier):
+    """listings whose length is k*4096 + {-1,0,1,2} (the stdio buffer fills exactly at the last newline): every refusal offset in the last 4200 bytes (quick: every 7th)"""
+    for k in (1, 2, 3):
+        for delta in (-1, 0, 1, 2):
+            L = k * 4096 + delta
+            lo = max(0, L - 4200)
+            lim = list(range(lo, L + 2, 1 if tier == 'thorough' else 7)) + [0, 1, L - 1, L, L + 1]
+            lim = sorted(set(x for x in lim if x >= 0))
+            for i in range(0, len(lim), 120):
+                yield {'w': 'exact', 'L': L, 'limits': lim[i:i + 120]}
+
+
 def fam_extract(tier):
     """extract-files / extract-unused: every per-file size limit N from 0 to the largest extracted file"""
     for cmd, top in ((['extract-files', 'out'], 9002), (['extract-unused', 'out'], 256 * 400)):
@@ -311,7 +405,7 @@ def fam_dev(tier):
     yield {'w': 'dest'}
 
 
-FAMILIES = [('D-devfull-closedpipe-baddest', fam_dev), ('O-stdout-refuses-at-N', fam_stdout), ('E-extracted-file-refuses-at-N', fam_extract)]
+FAMILIES = [('D-devfull-closedpipe-baddest', fam_dev), ('X-exact-buffer-multiple-listings', fam_exact), ('O-stdout-refuses-at-N', fam_stdout), ('E-extracted-file-refuses-at-N', fam_extract)]
 
 
 def main(tier, seed):
